@@ -581,7 +581,7 @@ def minseg_estimate(case):
 
 
 @st.composite
-def jitter_ends(draw, case, prob=0.5, lo=0.05e-3, hi=0.4e-3):
+def jitter_ends(draw, case, prob=0.5, lo=0.05e-3, hi=0.4e-3, group_prob=0.5):
     """move ends of straight wires by lo..hi of the shortest segment (well inside the matching tolerance of 1e-3):
     junctions stay junctions, but the coordinates of the joined ends are no longer identical.  Ends on the ground
     plane keep z = 0.  Returns the number of moved ends."""
@@ -590,6 +590,26 @@ def jitter_ends(draw, case, prob=0.5, lo=0.05e-3, hi=0.4e-3):
         ms = ms / max(1.0, max(abs(s['f']) for s in case['scales']))
     ground = case['env']['kind'] != 'free'
     n = 0
+    # ends that share bit-identical coordinates: some of them are moved TOGETHER first (two wires given with the same
+    # slightly different numbers at a junction whose first wire has other numbers)
+    groups = {}
+    for i, o in enumerate(case['objs']):
+        if o['type'] == 'wire':
+            for e in ('p1', 'p2'):
+                groups.setdefault(tuple(o[e]), []).append((i, e))
+    for key in sorted(groups):
+        g = groups[key]
+        if len(g) < 3 or (ground and abs(key[2]) < 1e-12) or draw(st.floats(0, 1)) >= group_prob:
+            continue
+        sub = [x for x in g[1:] if draw(st.booleans())] if draw(st.booleans()) else g[1:]
+        d = np.array([draw(st.floats(-1, 1)), draw(st.floats(-1, 1)), draw(st.floats(-1, 1))])
+        nd = np.linalg.norm(d)
+        if nd < 1e-3 or not sub:
+            continue
+        d = d / nd * draw(st.floats(lo, hi)) * ms
+        for i, e in sub:
+            case['objs'][i][e] = [float(a_ + b_) for a_, b_ in zip(case['objs'][i][e], d)]
+            n += 1
     for o in case['objs']:
         if o['type'] != 'wire':
             continue
